@@ -103,7 +103,7 @@ def parse_lp_block(lines):
 
 def pick_xform(rng, lp):
     n, m = len(lp["cols"]), len(lp["rows"])
-    k = rng.choice(["negobj", "scalerow", "scalerow", "duprow", "redundant", "spliteq", "permrows", "subst", "subst"])
+    k = rng.choice(["negobj", "scalerow", "scalerow", "duprow", "redundant", "spliteq", "permrows", "permcols", "subst", "subst"])
     if k == "negobj" or m == 0:
         return ["negobj"] if k == "negobj" or m == 0 else None
     if k == "scalerow":
@@ -115,6 +115,10 @@ def pick_xform(rng, lp):
     if k == "spliteq":
         eq = [i for i, r in enumerate(lp["rows"]) if r[1] == "E"]
         return ["spliteq", str(rng.choice(eq) if eq else rng.randrange(m))]
+    if k == "permcols":
+        p = list(range(n))
+        rng.shuffle(p)
+        return ["permcols"] + [str(i) for i in p]
     if k == "permrows":
         p = list(range(m))
         rng.shuffle(p)
@@ -241,13 +245,13 @@ def main():
         ck.violation("proof.txt", pr["log"], "proof obligation(s) of Properties_C15.v no longer check: %s" % pr["failed"], no_input=not ck.violations)
     ck.cov["rule"] = ("sparse generators (transportation, staircase, planted, assignment, infeasible/unbounded variants) of %d..%d rows plus small families; "
                       "each LP is pushed through a chain of %d Coq-extracted, proved-equivalent reformulations (row permutation, row scaling of either sign, duplicate row, "
-                      "redundant row, equality split, objective negation, affine variable substitution); both LPs solved by QSexact_solver; non-trivial = a chain of "
+                      "redundant row, equality split, objective negation, column permutation, affine variable substitution); both LPs solved by QSexact_solver; non-trivial = a chain of "
                       ">= 1 applied reformulation with both answers compared; distinct by (LP, chain)" % (min(s[0] for s in sizes) if sizes else 0, max(s[0] for s in sizes) if sizes else 0, chain_len))
     ck.cov["evaluations"] = len(cases)
     ck.cov["reformulations_applied"] = kinds
     ck.cov["original_status_histogram"] = hist
     ck.cov["sizes_rows_cols"] = sorted(sizes)[-5:]
-    ck.cov["not_covered"] = "column permutation has no theorem yet and is not applied; UNBOUNDED answers are compared but uncertified"
+    ck.cov["not_covered"] = "UNBOUNDED answers are compared but uncertified"
     ck.assumptions = ["Coq kernel; extraction + OCaml (transformations are the extracted verified functions)", "harness h_solve"]
     ck.finish(trusted_base=["coqc 8.16.1 kernel", "OCaml extraction (ExtrOcamlBasic + ExtrOcamlString)", "harness h_solve.c + checks/C15.py"])
 
